@@ -389,7 +389,10 @@ impl SendChannelReliable {
     }
 
     pub(crate) fn verif_set_next_message_id(&mut self, id: u64) {
-        assert!(self.unacked_messages.is_empty(), "verif counter teleport is only for fresh channels");
+        assert!(
+            self.unacked_messages.is_empty(),
+            "verif counter teleport is only for fresh channels"
+        );
         self.next_reliable_message_id = id;
     }
 }
@@ -401,7 +404,10 @@ impl ReceiveChannelReliable {
     }
 
     pub(crate) fn verif_set_next_message_id(&mut self, id: u64) {
-        assert!(self.messages.is_empty() && self.slices.is_empty(), "verif counter teleport is only for fresh channels");
+        assert!(
+            self.messages.is_empty() && self.slices.is_empty(),
+            "verif counter teleport is only for fresh channels"
+        );
         self.oldest_pending_message_id = id;
     }
 }
